@@ -89,6 +89,7 @@ func drawC06(rt *rapid.T, p *Plan, tier string) *Plan {
 		})
 	}
 	p.Election = max(0, rapid.IntRange(0, 6).Draw(rt, "election")-3)
+	p.HeadersFirst = rapid.Bool().Draw(rt, "hdrfirst")
 	p.Tape = drawTape(rt, 128)
 	return p
 }
@@ -392,6 +393,55 @@ func (r *run) runC06() {
 			return
 		}
 		prev = b
+	}
+	if r.plan.Proto.StateRootInHeader && r.plan.HeadersFirst {
+		r.headersFirstAttack(V)
+	}
+}
+
+// headersFirstAttack: headers run ahead of blocks. The header of block N+1 - validly linked and signed by the
+// real validators (equivocation only the harness can build) but with a wrong PrevStateRoot - is recorded while
+// the state is still at N-1, where the previous state root cannot be checked yet. Whatever happens to block N
+// then, the block N+1 carrying that header must never be accepted.
+func (r *run) headersFirstAttack(V *Node) {
+	bn, ok := r.produce(BlockPlan{}, nil)
+	if !ok {
+		return
+	}
+	bn1, ok := r.produce(BlockPlan{}, nil)
+	if !ok {
+		return
+	}
+	srih := true
+	bad, err := decodeBlock(encodeBlock(bn1), srih)
+	if err != nil {
+		sim.Harnessf("re-decode: %v", err)
+	}
+	bad.PrevStateRoot[3] ^= 0x10
+	c2, err := decodeBlock(encodeBlock(bad), srih)
+	if err != nil || !r.resign(c2) {
+		return
+	}
+	bad.Script.InvocationScript = c2.Script.InvocationScript
+	badRaw := encodeBlock(bad)
+	badBlk, err := decodeBlock(badRaw, srih)
+	if err != nil {
+		sim.Harnessf("re-decode: %v", err)
+	}
+	gn, _ := decodeBlock(r.raw[bn.Index], srih)
+	r.out.Faults["headers_first_bad_prevstateroot"]++
+	herr := V.BC.AddHeaders(&gn.Header, &badBlk.Header)
+	r.log.Addf("headers-first attack: AddHeaders(%d genuine, %d with a wrong PrevStateRoot) -> %v", bn.Index, bn1.Index, herr != nil)
+	e1 := V.AddBlockBytes(r.raw[bn.Index])
+	sim.Wait()
+	e2 := V.AddBlockBytes(badRaw)
+	sim.Wait()
+	if e2 == nil {
+		r.violate(sim.Violatef("corrupted-block-accepted", "corrupted-block-accepted/prevstateroot-headers-first", "block %d whose (validly signed) header carries a PrevStateRoot that does not match the local state root of %d was accepted after its header had been recorded ahead of the blocks (AddHeaders err=%v, AddBlock(%d) err=%v)", bn1.Index, bn.Index, herr, bn.Index, e1))
+		return
+	}
+	if V.BC.BlockHeight() > bn.Index {
+		r.violate(sim.Violatef("rejected-block-changed-tip", "", "height moved to %d although block %d was rejected", V.BC.BlockHeight(), bn1.Index))
 	}
 }
 
